@@ -80,7 +80,7 @@ func init() {
 		Assumptions: []string{
 			"memstore/microsql/pgshim are trusted: a 500 whose logged error or panic value/site comes from them is counted as harness_gap, not as a violation",
 			"errors only Postgres would raise on a value the Go layer lets through (e.g. NUL bytes, numeric overflow in SQL) are not observable here",
-			"requests are served in-process (httptest): net/http's own request parsing (malformed request line, invalid percent-encoding, header syntax) is not exercised; the request context is cancelled when the handler returns, as net/http does",
+			"requests are served in-process (httptest): net/http's own request parsing (malformed request line, invalid percent-encoding, header syntax) is not exercised; the request context is cancelled when the handler returns, as net/http does - except for POST /logs/import, whose import goroutine can outlive the handler: memstore cannot serve a store call made after that cancellation (it panics holding its mutex), so that route keeps its context",
 			"the v2 ledger listing is served by memstore without the real paginator: cursor tampering on GET /v2/ only exercises cursor decoding",
 			"a 4xx of a NON-atomic bulk or of an import after some elements were committed is reported once per route under a dedicated `state-changed` signature (documented partial-commit semantics vs the literal statement)",
 		},
@@ -132,6 +132,7 @@ func (a *c38Agg) eval(sig string, nt bool) {
 
 var c38MergeMu sync.Mutex
 var c38SamplesGiven int
+var c38CrashConfirmed = map[string]bool{}
 
 func c38Merge(r *core.Run, a *c38Agg) {
 	c38MergeMu.Lock()
@@ -275,7 +276,15 @@ func runC38(r *core.Run) {
 			defer wg.Done()
 			for bi := range ch {
 				b := batches[bi]
+				t0 := time.Now()
 				c38RunBatchInChildren(r, bi, b.loop, b.from, b.to, dir)
+				if d := time.Since(t0); d > 15*time.Second {
+					name := fmt.Sprintf("%s[%d,%d)", b.loop, b.from, b.to)
+					if b.loop == "sys" {
+						name += " " + routes[sys[b.from].Route].Name + fmt.Sprintf(" v%d", sys[b.from].Variant)
+					}
+					r.Seen("slow_batches", fmt.Sprintf("%s %.0fs", name, d.Seconds()))
+				}
 			}
 		}()
 	}
@@ -356,10 +365,18 @@ func c38RunBatchInChildren(r *core.Run, bi int, loop string, from, to int, dir s
 			r.Inconclusive(fmt.Sprintf("C38: child for %s[%d,%d) killed by the batch watchdog while serving %s %s (%s: %s); request kept in %s", loop, next, to, inf.Route, inf.Class, inf.Desc, c38Tail(string(b), 600), crashName))
 		} else {
 			msg, site := c38CrashSite(stderr)
-			// confirm in isolation: a fresh child replays the case's seeding and only this request
-			stderr2, exit2, _ := c38Spawn(exe, r, scratch, loop, inf.Case, inf.Case+1, base+".out2", base+".json2", inf.Seq, 0)
-			_, site2 := c38CrashSite(stderr2)
-			reproduced := exit2 != 0 && site2 == site
+			// confirm in isolation (first crash of each signature): a fresh child replays the case's seeding and only this request
+			var reproduced any = "not attempted (signature already confirmed)"
+			sigKey := inf.Route + "|" + c38Channel(inf.Class) + "|" + site
+			c38MergeMu.Lock()
+			first := !c38CrashConfirmed[sigKey]
+			c38CrashConfirmed[sigKey] = true
+			c38MergeMu.Unlock()
+			if first {
+				stderr2, exit2, _ := c38Spawn(exe, r, scratch, loop, inf.Case, inf.Case+1, base+".out2", base+".json2", inf.Seq, 0)
+				_, site2 := c38CrashSite(stderr2)
+				reproduced = exit2 != 0 && site2 == site
+			}
 			_ = os.Remove(base + ".out2")
 			_ = os.Remove(base + ".json2")
 			_ = os.Remove(base + ".json2.history")
@@ -650,8 +667,7 @@ func (l c38Logger) Enabled(level logging.Level) bool            { return level >
 
 var _ logging.Logger = c38Logger{}
 
-// c38Subst replaces the placeholders of a request (see c38Req).
-func (x *c38Exec) subst(q c38Req) c38Req {
+func c38HasPlaceholder(q c38Req) bool {
 	has := func(s string) bool { return strings.Contains(s, "@@") }
 	need := has(string(q.Body))
 	for _, s := range q.Segs {
@@ -663,7 +679,20 @@ func (x *c38Exec) subst(q c38Req) c38Req {
 	for _, kv := range q.Headers {
 		need = need || has(kv.V)
 	}
-	if !need {
+	return need
+}
+
+// skip keeps the placeholder counter in step for a request that is not executed.
+func (x *c38Exec) skip(q c38Req) {
+	if c38HasPlaceholder(q) {
+		x.uniq++
+	}
+}
+
+// c38Subst replaces the placeholders of a request (see c38Req).
+func (x *c38Exec) subst(q c38Req) c38Req {
+	has := func(s string) bool { return strings.Contains(s, "@@") }
+	if !c38HasPlaceholder(q) {
 		return q
 	}
 	x.uniq++
@@ -761,7 +790,14 @@ func (x *c38Exec) raw(q c38Req) *c38Resp {
 		}
 		sink := &c38LogSink{}
 		ctx, cancel := context.WithCancel(logging.ContextWithLogger(context.Background(), c38Logger{sink}))
-		defer cancel()
+		if strings.HasSuffix(q.path(), "/logs/import") {
+			// importLogs can return while its import goroutine is still inside a store call; memstore
+			// panics with its mutex held when a store call follows the cancellation of its transaction's
+			// context (harness limitation), so this one route keeps its context alive.
+			_ = cancel
+		} else {
+			defer cancel()
+		}
 		req := httptest.NewRequest(method, target, rd).WithContext(ctx)
 		for _, kv := range q.Headers {
 			if kv.K == "" || !c38ValidHeaderValue(kv.V) {
@@ -841,7 +877,7 @@ func (x *c38Exec) panicInfo(q c38Req) (value, site, stack string) {
 	}
 	x.abortAll()
 	if site == "" {
-		site = "none(empty 500 written by the handler)"
+		site = "not-reproduced-on-replay(or empty 500 written by the handler)"
 	}
 	if len(value) > 300 {
 		value = value[:300]
@@ -892,6 +928,18 @@ func c38Normalize(s string, n int) string {
 		s = s[:n]
 	}
 	return s
+}
+
+// c38ErrClass: the outermost wrapping segment of a logged error (input-independent, at most 60 chars);
+// the full text is in the violation's detail.
+func c38ErrClass(msg string) string {
+	if i := strings.Index(msg, " | "); i >= 0 {
+		msg = msg[:i]
+	}
+	if i := strings.Index(msg, ": "); i >= 0 {
+		msg = msg[:i]
+	}
+	return c38Normalize(msg, 60)
 }
 
 // c38Channel maps a (fine) mutation class to the coarse class used in
@@ -1100,7 +1148,7 @@ func (x *c38Exec) judge(rt *c38Route, class string, q c38Req, resp *c38Resp, bef
 		if c38IsHarnessGap(msg) {
 			return c38Verdict{Kind: "harness_gap", Sig: c38Normalize(rt.Name+" "+msg, 160)}
 		}
-		return c38Verdict{Kind: "5xx", Sig: fmt.Sprintf("%s%d:%s", prefix, resp.Status, c38Normalize(msg, 60))}
+		return c38Verdict{Kind: "5xx", Sig: fmt.Sprintf("%s%d:%s", prefix, resp.Status, c38ErrClass(msg))}
 	}
 	if resp.Status < 100 || resp.Status > 599 {
 		return c38Verdict{Kind: "bad-status", Sig: fmt.Sprintf("%s%d:invalid-status-code", prefix, resp.Status)}
@@ -1159,11 +1207,11 @@ func (x *c38Exec) exec(rt *c38Route, m c38Mut, validKey string) (status int) {
 	x.seq++
 	if x.onlyReq >= 0 && x.seq != x.onlyReq {
 		// isolation replay: placeholders must still advance identically
-		_ = x.subst(m.Req)
+		x.skip(m.Req)
 		return 0
 	}
 	if x.seq < x.startSeq {
-		_ = x.subst(m.Req)
+		x.skip(m.Req)
 		return 0
 	}
 	if x.wedged {
@@ -1188,6 +1236,12 @@ func (x *c38Exec) exec(rt *c38Route, m c38Mut, validKey string) (status int) {
 	if resp.Unbuildable != "" {
 		a.count("unbuildable_requests", 1)
 		a.seen("unbuildable", c38Normalize(resp.Unbuildable, 60))
+		return 0
+	}
+	if resp.TimedOut && !x.guard("probe after a request that did not return", func() { x.env.C.Stats() }) {
+		// the store is wedged (see guard): the handler was waiting for it; not an observation about /repo
+		x.hist(q, 0)
+		x.maybeReseed()
 		return 0
 	}
 	if resp.TimedOut {
@@ -1292,7 +1346,7 @@ func (x *c38Exec) exec(rt *c38Route, m c38Mut, validKey string) (status int) {
 	if v.Kind == "panic" {
 		detail["panic"] = map[string]any{"value": v.PanicVal, "site": v.Site, "stack": v.Stack}
 	}
-	if v.Kind == "5xx" || v.Kind == "panic" {
+	if (v.Kind == "5xx" || v.Kind == "panic") && rt.Body != "import" {
 		min, n := x.minimize(rt, m.Class, q, v.Sig)
 		x.lastDig = ""
 		if n > 0 {
@@ -1357,9 +1411,17 @@ func (x *c38Exec) minimize(rt *c38Route, class string, q c38Req, sig string) (c3
 			return false
 		}
 		budget--
+		if x.wedged || x.aborted {
+			budget = 0
+			return false
+		}
 		before := x.digest()
 		resp := x.raw(c)
-		if resp.Unbuildable != "" || resp.TimedOut {
+		if resp.TimedOut {
+			budget = 0 // never spend the wall clock on minimisation
+			return false
+		}
+		if resp.Unbuildable != "" {
 			return false
 		}
 		if resp.Status >= 500 && len(resp.Body) == 0 {
